@@ -526,3 +526,7 @@ impl Debug for ScionHeaderView {
             .finish()
     }
 }
+
+#[cfg(kani)]
+#[path = "/verif/kani/sciparse/c02_header_view.rs"]
+mod verif_c02_header_view;
